@@ -128,3 +128,11 @@ def shared_storage(a, b, shared_ok=()):
             elif xa is xb:
                 bad.append((pa, pb))
     return bad
+
+
+def independent(ctx, name, new, old, shared_ok=()):
+    """clause: an object returned as NEW shares no mutable storage with the
+    object it was derived from (otherwise the next in-place edit of one shows
+    in the other)."""
+    bad = shared_storage(new, old, shared_ok=shared_ok)
+    ctx.check_true(name, not bad, 'shared: %s' % (bad[:3],))
